@@ -696,7 +696,10 @@ impl<const N: usize> ScenN<N> {
                 }
             }
         }
-        if bad.is_none() {
+        // duplicates disallowed: a write to a live key is acknowledged without storing; only the writes-only mode is
+        // judged then (sequentially exactly one record per written key is stored, the first in linearization order)
+        let nodup = !self.cfg.dup;
+        if bad.is_none() && !nodup {
             for w in h.iter().filter(|w| w.kind == 0 && w.ok) {
                 if !on_disk.contains(&(pool[w.key].clone(), w.ts, false)) {
                     bad = Some(format!("acknowledged write key {} ts {} is in no blob file", w.key, w.ts));
@@ -726,6 +729,20 @@ impl<const N: usize> ScenN<N> {
                 };
                 // failed (unacknowledged) updates may or may not be there: compare on acknowledged ones only when all succeeded
                 let all_ok = h.iter().all(|w| w.ok);
+                if nodup {
+                    let only_writes = h.iter().all(|w| w.kind == 0);
+                    if only_writes && all_ok && !want.is_empty() {
+                        if got.len() > 1 {
+                            bad = Some(format!("key {}: duplicates are disallowed, yet {} records of the key are stored {:?} (every sequential order stores one): concurrent writers all passed the liveness check", ki, got.len(), got));
+                            break;
+                        }
+                        if got.len() != 1 || !want.contains(&got[0]) {
+                            bad = Some(format!("key {}: duplicates disallowed, stored {:?}, acknowledged writes {:?}", ki, got, want));
+                            break;
+                        }
+                    }
+                    continue;
+                }
                 if all_ok && got != want {
                     bad = Some(format!("key {}: final version list {:?} differs from the sequential outcome {:?}", ki, got, want));
                     break;
@@ -2125,6 +2142,64 @@ impl<const N: usize> ScenN<N> {
                 }
                 s
             }
+            "fcounts" => {
+                // the counters against the directory: blob files of the work dir and of the corrupted dir, and the
+                // sizes of the files of the blobs the storage holds
+                Self::quiesce(st).await;
+                let states = st.verif_blob_states().await;
+                let ids: std::collections::BTreeSet<usize> = states.iter().map(|b| b.id).collect();
+                let mut files = 0usize;
+                let mut known = 0usize;
+                let mut maxfile: Option<usize> = None;
+                let mut dirsum = 0u64;
+                if let Ok(rd) = std::fs::read_dir(dir) {
+                    for e in rd.flatten() {
+                        let name = e.file_name().to_string_lossy().to_string();
+                        let f: Vec<&str> = name.split('.').collect();
+                        if f.len() != 3 {
+                            continue;
+                        }
+                        let id = match f[1].parse::<usize>() { Ok(i) => i, Err(_) => continue };
+                        let len = e.metadata().map(|m| m.len()).unwrap_or(0);
+                        if f[2] == "blob" {
+                            files += 1;
+                            maxfile = maxfile.max(Some(id));
+                            if ids.contains(&id) {
+                                known += 1;
+                                dirsum += len;
+                            }
+                        } else if f[2] == "index" && ids.contains(&id) {
+                            dirsum += len;
+                        }
+                    }
+                }
+                let mut corrfiles = 0usize;
+                if let Ok(rd) = std::fs::read_dir(dir.join("corrupted")) {
+                    for e in rd.flatten() {
+                        let name = e.file_name().to_string_lossy().to_string();
+                        let f: Vec<&str> = name.split('.').collect();
+                        if f.len() == 3 && f[2] == "blob" {
+                            corrfiles += 1;
+                            if let Ok(id) = f[1].parse::<usize>() {
+                                maxfile = maxfile.max(Some(id));
+                            }
+                        }
+                    }
+                }
+                format!(
+                    "fcounts blobs={} held={} files={} known={} next={} maxfile={} corr={} corrfiles={} disk={} dirsum={}",
+                    st.blobs_count().await,
+                    ids.len(),
+                    files,
+                    known,
+                    st.next_blob_id(),
+                    maxfile.map(|x| x.to_string()).unwrap_or("-".into()),
+                    st.corrupted_blobs_count(),
+                    corrfiles,
+                    st.disk_used().await,
+                    dirsum
+                )
+            }
             "counts" => {
                 let rc = st.records_count().await;
                 let det = st.records_count_detailed().await;
@@ -2291,7 +2366,7 @@ fn new_scen(cfg: Cfg, dir: PathBuf) -> Option<Box<dyn Scen>> {
             }
         };
     }
-    mk!(1, 4, 8, 33, 128, 1000)
+    mk!(1, 4, 8, 33, 128, 503, 1000)
 }
 
 pub fn run_lines(lines: &[String], base: &Path, keep: bool, out: &mut dyn FnMut(&str)) {
